@@ -17,11 +17,18 @@ proved, for all histories and without bounds:
   child layout (`CfgStd`; `parent` arbitrary) and a total preorder, `NewWithData`, `Set`, `Reorder`
   establish heap order, `Pop`/`Remove 0`/`Clear` preserve it, so on every history without `Add`
   and interior `Remove` `Front`/`Pop` return a minimal held element and draining is non-decreasing.
+* `C05_partial_order_wide`: the same conclusions on the wider, state-dependent fragment `allowedRun`:
+  additionally `Remove i` of the **last** slot or out of range (`i + 1 ≥ len`: no sift), `Remove i` with
+  `i ≤ 2` (the moved element's new parent is the root: F2 needs an interior offset `≥ 3`) and `Add v` of an
+  element not smaller than any held one (monotone insertion: `pushUp` never swaps, F1 is not reached).
 * `sort_correct`: `heapq.Sort` leaves a sorted permutation (it only uses `NewWithData` + `Pop`).
 * `C05_full`: for the *repaired* configuration (`parent i = (i-1)/2`, sift-up in `pop`) the ordering
   claim holds on every history — F1 and F2 are the only obstacles.
 * `C05_current`: the configuration regenerated from heapq.go (`Gen.Heapq`) **is** the pinned one;
   the corollaries `*_current` instantiate the theorems at `Drv.C05.cfg`, which the driver runs.
+* `C05_verdict`: the disjunctive obligation of DESIGN.md §5 — `(IsRepaired cfg ∧ Full cfg) ∨ (IsPinned cfg ∧
+  Partial cfg ∧ Witnessed cfg)` at the regenerated configuration, proved today by the right-hand disjunct;
+  its doc comment says how the proof term is switched when heapq.go is repaired.
 -/
 namespace MdsVerif.Props.C05
 open MdsVerif.Model.Heapq MdsVerif.Proofs.Heapq
@@ -374,6 +381,103 @@ theorem C05_partial_order (ops : List (Op α)) (hall : ∀ op ∈ ops, allowedOp
   exact ⟨inv, front_pop_min ho _ inv, fun f => (drain_sorted ho (popOK_std hs ho) f _ inv).1,
     drain_perm (popOK_std hs ho) _ _ (Nat.le_refl _)⟩
 
+/-! ### the wider, state-dependent fragment: also `Remove` of the last slot and `Add` of a maximum -/
+
+/-- operations that provably keep heap order on the pinned code, given the current state: everything of
+`allowedOp`, plus `Remove i` with `i + 1 ≥ len` (the **last** slot — no element moves, no sift — or out of
+range) or `i ≤ 2` (the new parent of the moved element is the root: no sift-up is needed), plus `Add v` of
+an element that is not smaller than any held one (`pushUp`'s one comparison fails, whatever the parent
+index is: monotone insertion never reaches F1) -/
+def allowedAt (lt : α → α → Bool) (s : S α) : Op α → Bool
+  | .add v => s.h.data.all (fun x => !(s.lt lt) v x)
+  | .remove i => decide (i ≤ 2) || decide (s.h.len ≤ i + 1)
+  | _ => true
+
+/-- every operation of the history is allowed in the state in which it is executed -/
+def allowedRun (cfg : Cfg) (lt : α → α → Bool) : S α → List (Op α) → Bool
+  | _, [] => true
+  | s, op :: ops => allowedAt lt s op && allowedRun cfg lt (step cfg lt s op).1 ops
+
+omit hs ho [Inhabited α] in
+theorem allowedAt_of_allowedOp (s : S α) (op : Op α) (h : allowedOp op = true) : allowedAt lt s op = true := by
+  cases op with
+  | add v => simp [allowedOp] at h
+  | remove i =>
+    cases i with
+    | zero => simp [allowedAt]
+    | succ i => simp [allowedOp] at h
+  | _ => rfl
+
+omit hs ho in
+/-- the state-independent fragment of `C05_partial_order` is contained in the wider one -/
+theorem allowedRun_of_allowedOp (ops : List (Op α)) (hall : ∀ op ∈ ops, allowedOp op = true) (s : S α) :
+    allowedRun cfg lt s ops = true := by
+  induction ops generalizing s with
+  | nil => rfl
+  | cons op ops ih =>
+    simp only [allowedRun, allowedAt_of_allowedOp s op (hall op List.mem_cons_self), Bool.true_and]
+    exact ih (fun o ho' => hall o (List.mem_cons_of_mem _ ho')) _
+
+/-- one operation of the wider fragment keeps heap order -/
+theorem step_heapOK_wide (hc : CfgOK cfg) (s : S α) (op : Op α) (ha : allowedAt lt s op = true)
+    (hh : HeapOK (s.lt lt) s.h.data) :
+    HeapOK ((step cfg lt s op).1.lt lt) (step cfg lt s op).1.h.data := by
+  cases op with
+  | add v =>
+    show HeapOK (s.lt lt) (add cfg (s.lt lt) s.h v).1.data
+    rw [heapOK_iff] at hh ⊢
+    refine add_max_heap hc s.h v ?_ hh
+    intro x hx
+    simp only [allowedAt, List.all_eq_true, Bool.not_eq_true'] at ha
+    exact ha x hx
+  | remove i =>
+    simp only [allowedAt, Bool.or_eq_true, decide_eq_true_eq] at ha
+    rcases ha with h2 | hlast
+    · simp only [step]
+      split
+      · exact hh
+      · rename_i hlt
+        show HeapOK (s.lt lt) (pop cfg (s.lt lt) s.h i).1.data
+        rw [heapOK_iff] at hh ⊢
+        exact pop_shallow_heap hs (orderOK_dir ho s) s.h i (by omega) h2 hh
+    · simp only [step]
+      split
+      · exact hh
+      · rename_i hlt
+        show HeapOK (s.lt lt) (pop cfg (s.lt lt) s.h i).1.data
+        rw [heapOK_iff] at hh ⊢
+        exact pop_last_heap hs.toCfgLayout.left_gt s.h i (by omega) hh
+  | pop => exact (C05_pop_preserves hs ho s hh).1
+  | set vs => exact (C05_establish hs.toCfgLayout ho s).2.1 vs
+  | reorder rev => exact (C05_establish hs.toCfgLayout ho s).2.2.1 rev
+  | clear => exact (C05_establish hs.toCfgLayout ho s).2.2.2
+  | newWithData vs rev => exact (C05_establish hs.toCfgLayout ho s).1 vs rev
+  | front => exact hh
+  | peek i => exact hh
+  | len => exact hh
+
+/-- **C05, the wider part that holds of the pinned code** (F1 and F2 present): the conclusions of
+`C05_partial_order` on every history each of whose operations is, in the state in which it is executed,
+one of `NewWithData, Set, Reorder, Pop, Clear, Front, Peek, Len`, `Remove i` with `i ≤ 2` or `i + 1 ≥ len`
+(root, a child of the root, last slot, out of range), or `Add v` with `v` not smaller than any held element (`allowedRun`).
+Contains the fragment of `C05_partial_order` (`allowedRun_of_allowedOp`). -/
+theorem C05_partial_order_wide (hc : CfgOK cfg) (ops : List (Op α)) (s0 : S α)
+    (hall : allowedRun cfg lt s0 ops = true) (h0 : HeapOK (s0.lt lt) s0.h.data) :
+    let s := runS cfg lt s0 ops
+    HeapOK (s.lt lt) s.h.data ∧
+    (s.h.data ≠ [] → ∃ v, step cfg lt s .front = (s, .val v) ∧ (step cfg lt s .pop).2 = .opt (some v) ∧
+      v ∈ s.h.data ∧ ∀ x ∈ s.h.data, s.lt lt x v = false) ∧
+    (∀ f, (drain cfg lt f s).Pairwise (fun a b => s.lt lt b a = false)) ∧
+    (drain cfg lt s.h.len s).Perm s.h.data := by
+  have inv : HeapOK ((runS cfg lt s0 ops).lt lt) (runS cfg lt s0 ops).h.data := by
+    induction ops generalizing s0 with
+    | nil => exact h0
+    | cons op ops ih =>
+      simp only [allowedRun, Bool.and_eq_true] at hall
+      exact ih _ hall.2 (step_heapOK_wide hs ho hc s0 op hall.1 h0)
+  exact ⟨inv, front_pop_min ho _ inv, fun f => (drain_sorted ho (popOK_std hs ho) f _ inv).1,
+    drain_perm (popOK_std hs ho) _ _ (Nat.le_refl _)⟩
+
 /-- **`heapq.Sort` leaves its argument a sorted permutation of the input** -/
 theorem sort_correct (vs : List α) :
     (sort cfg lt vs).Perm vs ∧ (sort cfg lt vs).Pairwise (fun a b => lt b a = false) :=
@@ -475,6 +579,17 @@ theorem C05_partial_order_current {lt : α → α → Bool} (ho : OrderOK lt) (o
   C05_partial_order current_std ho ops hall {}
     (fun i => ⟨fun h => absurd h (by simp), fun h => absurd h (by simp)⟩)
 
+theorem C05_partial_order_wide_current {lt : α → α → Bool} (ho : OrderOK lt) (ops : List (Op α))
+    (hall : allowedRun Drv.C05.cfg lt ({} : S α) ops = true) :
+    let s := runS Drv.C05.cfg lt ({} : S α) ops
+    HeapOK (s.lt lt) s.h.data ∧
+    (s.h.data ≠ [] → ∃ v, step Drv.C05.cfg lt s .front = (s, .val v) ∧
+      (step Drv.C05.cfg lt s .pop).2 = .opt (some v) ∧ v ∈ s.h.data ∧ ∀ x ∈ s.h.data, s.lt lt x v = false) ∧
+    (∀ f, (drain Drv.C05.cfg lt f s).Pairwise (fun a b => s.lt lt b a = false)) ∧
+    (drain Drv.C05.cfg lt s.h.len s).Perm s.h.data :=
+  C05_partial_order_wide current_std ho current_ok ops {} hall
+    (fun i => ⟨fun h => absurd h (by simp), fun h => absurd h (by simp)⟩)
+
 theorem sort_correct_current {lt : α → α → Bool} (ho : OrderOK lt) (vs : List α) :
     (sort Drv.C05.cfg lt vs).Perm vs ∧ (sort Drv.C05.cfg lt vs).Pairwise (fun a b => lt b a = false) :=
   sort_correct current_std ho vs
@@ -570,6 +685,83 @@ theorem repaired_ok : CfgRepaired repaired where
 slot) pop only minimal elements -/
 example : allPopsMinimal repaired Drv.C05.ltKey {} (f1Ops ++ f2Ops ++ [.remove 6, .pop]) = true := by decide
 
+/-! ## 6. the disjunctive obligation on the current source (DESIGN.md §5)
+
+`C05_current` above is a hard pin: it stops compiling as soon as heapq.go changes shape, *also* when the
+change is a genuine repair of F1/F2.  `C05_verdict` is the obligation DESIGN.md §5 promised: it accepts
+exactly two shapes of the regenerated configuration — the pinned one (then: the partial theorem and the two
+witnesses) or a repaired one (then: the full theorem) — and fails to elaborate for any third shape. -/
+
+/-- the ordering claim at the end of a history from `s0` -/
+def OrderedAfter (cfg : Cfg) (lt : α → α → Bool) (s0 : S α) (ops : List (Op α)) : Prop :=
+  let s := runS cfg lt s0 ops
+  HeapOK (s.lt lt) s.h.data ∧
+  (s.h.data ≠ [] → ∃ v, step cfg lt s .front = (s, .val v) ∧ (step cfg lt s .pop).2 = .opt (some v) ∧
+    v ∈ s.h.data ∧ ∀ x ∈ s.h.data, s.lt lt x v = false) ∧
+  (∀ f, (drain cfg lt f s).Pairwise (fun a b => s.lt lt b a = false)) ∧
+  (drain cfg lt s.h.len s).Perm s.h.data
+
+/-- the whole ordering clause of C05: on **every** history -/
+def Full (cfg : Cfg) : Prop :=
+  ∀ (α : Type) [Inhabited α] (lt : α → α → Bool), OrderOK lt → ∀ (ops : List (Op α)) (s0 : S α),
+    HeapOK (s0.lt lt) s0.h.data → OrderedAfter cfg lt s0 ops
+
+/-- the part that does not depend on the defects: on every history of the wider fragment (`allowedRun`) -/
+def Partial (cfg : Cfg) : Prop :=
+  ∀ (α : Type) [Inhabited α] (lt : α → α → Bool), OrderOK lt → ∀ (ops : List (Op α)) (s0 : S α),
+    allowedRun cfg lt s0 ops = true → HeapOK (s0.lt lt) s0.h.data → OrderedAfter cfg lt s0 ops
+
+/-- the two recorded witnesses fail on the configuration -/
+def Witnessed (cfg : Cfg) : Prop :=
+  allPopsMinimal cfg Drv.C05.ltKey {} f1Ops = false ∧ allPopsMinimal cfg Drv.C05.ltKey {} f2Ops = false
+
+/-- pointwise: the configuration is the pinned one (F1: `parent i = i / 2`; F2: no sift-up in `pop`) -/
+def IsPinned (cfg : Cfg) : Prop :=
+  (∀ i, cfg.parent i = i / 2) ∧ (∀ i, cfg.left i = 2 * i + 1) ∧ (∀ lc, cfg.right lc = lc + 1) ∧
+  (∀ n, cfg.heapifyStart n = n / 2) ∧ cfg.popSiftsUp = false
+
+/-- pointwise: the configuration is a repaired one (`parent i = (i-1)/2`, sift-up in `pop`) -/
+abbrev IsRepaired (cfg : Cfg) : Prop := CfgRepaired cfg
+
+def Verdict (cfg : Cfg) : Prop :=
+  (IsRepaired cfg ∧ Full cfg) ∨ (IsPinned cfg ∧ Partial cfg ∧ Witnessed cfg)
+
+theorem isPinned_eq {cfg : Cfg} (h : IsPinned cfg) : cfg = pinned := by
+  obtain ⟨h1, h2, h3, h4, h5⟩ := h
+  cases cfg
+  simp only [pinned, Cfg.mk.injEq]
+  exact ⟨funext h1, funext h2, funext h3, funext h4, h5⟩
+
+theorem verdict_of_pinned (cfg : Cfg) (h : IsPinned cfg) : Verdict cfg := by
+  have e := isPinned_eq h
+  subst e
+  exact Or.inr ⟨h, fun _ _ _ ho ops s0 hall h0 => C05_partial_order_wide pinned_std ho pinned_ok ops s0 hall h0,
+    C05_F1_witness, C05_F2_witness⟩
+
+theorem verdict_of_repaired (cfg : Cfg) (h : IsRepaired cfg) : Verdict cfg :=
+  Or.inl ⟨h, fun _ _ _ ho ops s0 h0 => C05_full h ho ops s0 h0⟩
+
+/-- **The disjunctive obligation on the current source.**  Today heapq.go is the pinned code, so the
+right-hand disjunct is proved (`IsPinned Drv.C05.cfg` holds by `rfl` on the regenerated definitions).
+
+*When heapq.go is repaired* (parent `(i-1)/2`, `pop` sifts up), this proof no longer elaborates; replace it by
+
+    verdict_of_repaired _ ⟨⟨fun _ => rfl, fun _ => rfl, fun n => by show n ≤ 2 * (n / 2) + 3; omega⟩,
+      fun _ => rfl, rfl⟩
+
+(a two-line change: the left-hand disjunct, i.e. `C05_full` at the regenerated configuration), remove the
+hard pin `C05_current` and its `*_current` corollaries from the obligation list of props/C05.json (they state
+that F1/F2 are present), set the findings F1/F2 to `fixed` in known_findings.json, and use
+`C08_full_repaired` for the cache.  Any third shape of the code satisfies neither disjunct: a broken
+obligation, and the search for a failing input starts. -/
+theorem C05_verdict : Gen.Heapq.recognised = true ∧ Verdict Drv.C05.cfg :=
+  ⟨rfl, verdict_of_pinned _ ⟨fun _ => rfl, fun _ => rfl, fun _ => rfl, fun _ => rfl, rfl⟩⟩
+
+/-- the left-hand disjunct is not vacuous: it is proved for the written-out repaired configuration -/
+theorem C05_verdict_repaired : Verdict repaired :=
+  verdict_of_repaired _ ⟨⟨fun _ => rfl, fun _ => rfl, fun n => by show n ≤ 2 * (n / 2) + 3; omega⟩,
+    fun _ => rfl, rfl⟩
+
 /-! ## non-vacuity -/
 
 /-- a history of the defect-free fragment with a change of direction, on equivalent-but-distinct keys -/
@@ -585,5 +777,18 @@ example : (runHeld Drv.C05.cfg Drv.C05.ltKey {} [] (f1Ops ++ f2Ops ++ [.remove 3
   decide
 example : sort Drv.C05.cfg Drv.C05.ltKey [52, 17, 33, 91, 15, 70, 34, 8] = [8, 15, 17, 33, 34, 52, 70, 91] := by
   decide
+
+/-- a history of the wider fragment: monotone `Add`s into deeper levels (through the F1 parent index),
+removal of the last slot and out of range, `Pop`s in between; it is not in the old fragment, and both
+witness histories are outside the wider one -/
+def wideOps : List (Op Nat) :=
+  [.add 10, .add 20, .add 21, .add 30, .add 45, .add 50, .add 51, .add 60, .remove 7, .pop, .add 70, .remove 9,
+   .remove 6, .pop, .add 80, .add 85, .remove 2, .remove 1, .front]
+
+example : allowedRun Drv.C05.cfg Drv.C05.ltKey {} wideOps = true ∧
+    (∃ op ∈ wideOps, allowedOp op = false) ∧
+    (runS Drv.C05.cfg Drv.C05.ltKey {} wideOps).h.data = [21, 45, 85, 51, 80] ∧
+    allowedRun Drv.C05.cfg Drv.C05.ltKey {} f1Ops = false ∧
+    allowedRun Drv.C05.cfg Drv.C05.ltKey {} f2Ops = false := by decide
 
 end MdsVerif.Props.C05
